@@ -127,6 +127,10 @@ func vfC20UDPCase(t *testing.T, k *vfKit, caseID string, r *rand.Rand, dual bool
 	for i := range metas {
 		metas[i] = vfC20RandMeta(r)
 	}
+	uids := make([]string, nMeta)
+	for i := range uids {
+		uids[i] = vfC20AttemptID(r, fmt.Sprintf("u-att-%d", i), 600)
+	}
 	reg := map[string]vfC20Meta{}
 	var hist []string
 	nSteps := 40 + r.Intn(60)
@@ -137,7 +141,7 @@ func vfC20UDPCase(t *testing.T, k *vfKit, caseID string, r *rand.Rand, dual bool
 		switch x := r.Intn(10); {
 		case x == 0:
 			i := r.Intn(nMeta)
-			id := fmt.Sprintf("u-att-%d", i)
+			id := uids[i]
 			if err := w.AddPunchAttempt(id, metas[i].PM()); err != nil {
 				vfC20V(k, "realm:add-refused", map[string]any{"case_id": caseID}, "AddPunchAttempt refused well-formed metadata: %v", err)
 			}
@@ -146,7 +150,7 @@ func vfC20UDPCase(t *testing.T, k *vfKit, caseID string, r *rand.Rand, dual bool
 			k.Count("ev_add", 1)
 		case x == 1:
 			i := r.Intn(nMeta)
-			id := fmt.Sprintf("u-att-%d", i)
+			id := uids[i]
 			w.RemovePunchAttempt(id)
 			delete(reg, id)
 			hist = append(hist, "remove:"+id)
